@@ -344,6 +344,34 @@ static Cfg chan_cfg(int variant, bool fifo)
 }
 static const int NCHAN = 7;
 
+// channel programs with THREE parties (t = 0): with n = 2 a party always sees the r-send before any r-ready of the slot (same
+// link), so the r-request / r-answer path is unreachable there; with n = 3 party 2 can collect the r-ready of party 1 first, ask
+// for the payload, and LEAVE or CHANGE the channel before the answer arrives (added after seeded change C14-5)
+static Cfg chan3_cfg(int variant, bool fifo)
+{
+	Cfg c = base_cfg(3, 0, fifo, -1);
+	switch (variant)
+	{
+		case 0: // everybody enters the inner channel, party 0 broadcasts there; party 2 leaves without waiting
+			c.prog[0] = {Ev{'S', 1, 1, 0}, Ev{'B', 1101, 0, 0}, Ev{'U', 0, 0, 0}};
+			c.prog[1] = {Ev{'S', 1, 1, 0}, Ev{'U', 0, 0, 0}};
+			c.prog[2] = {Ev{'S', 1, 1, 0}, Ev{'U', 0, 0, 0}};
+			break;
+		case 1: // party 2 moves on to a sibling channel, where party 1 broadcasts later
+			c.prog[0] = {Ev{'S', 1, 1, 0}, Ev{'B', 1101, 0, 0}, Ev{'U', 0, 0, 0}, Ev{'S', 2, 1, 0}, Ev{'U', 0, 0, 0}};
+			c.prog[1] = {Ev{'S', 1, 1, 0}, Ev{'U', 0, 0, 0}, Ev{'S', 2, 1, 0}, Ev{'B', 2201, 0, 0}, Ev{'U', 0, 0, 0}};
+			c.prog[2] = {Ev{'S', 1, 1, 0}, Ev{'U', 0, 0, 0}, Ev{'S', 2, 1, 0}, Ev{'U', 0, 0, 0}};
+			break;
+		case 2: // a broadcast in the base channel and one in the inner channel, party 2 enters late and leaves early
+			c.prog[0] = {Ev{'B', 1001, 0, 0}, Ev{'S', 1, 1, 0}, Ev{'B', 1101, 0, 0}, Ev{'U', 0, 0, 0}};
+			c.prog[1] = {Ev{'S', 1, 1, 0}, Ev{'U', 0, 0, 0}};
+			c.prog[2] = {Ev{'S', 1, 1, 0}, Ev{'U', 0, 0, 0}};
+			break;
+	}
+	return c;
+}
+static const int NCHAN3 = 3;
+
 // DeliverFrom programs (n=3,t=0): 'W i' = wait for the next value of sender i
 static Cfg from_cfg(int variant)
 {
@@ -470,6 +498,37 @@ static void build_cells(bool thorough)
 			}
 			std::string id = "chan:variant=" + str(v) + ",fifo=" + str(f);
 			cells.push_back(Cell{id, [=]() { Cfg c = chan_cfg(v, f != 0); return bfs(c, id, 3000000, 10000); }});
+		}
+	// 2b. channel switching with three parties (r-request / r-answer path reachable), FIFO on and off.  The full BFS is feasible
+	//     for program 0 only (110 k states, 600 k transitions; thorough); all programs are explored deviation-bounded under every
+	//     single and ordered pair of demoted links (served only when nothing else is pending - this is what makes a party ask for the payload), d <= 2 (4) for single links and d <= 1 (3) for pairs
+	for (int v = 0; v < NCHAN3; v++)
+		for (int f = 1; f >= 0; f--)
+		{
+			if (v == 0 && thorough)
+			{
+				std::string id = "chan3:variant=" + str(v) + ",fifo=" + str(f);
+				cells.push_back(Cell{id, [=]() { Cfg c = chan3_cfg(v, f != 0); return bfs(c, id, 6000000, 10000); }});
+			}
+			int bound = thorough ? 4 : 2;
+			std::string id = "chan3prio:variant=" + str(v) + ",fifo=" + str(f) + ",d<=" + str(bound);
+			cells.push_back(Cell{id, [=]() {
+				bool ok = true;
+				for (int d1 = -1; d1 < 9 && ok; d1++)
+					for (int d2 = -1; d2 < 9 && ok; d2++)
+					{
+						if (d1 >= 0 && d1 / 3 == d1 % 3) continue;
+						if (d2 >= 0 && (d1 < 0 || d2 == d1 || d2 / 3 == d2 % 3)) continue;
+						Cfg c = chan3_cfg(v, f != 0);
+						std::vector<std::pair<int, int> > dem;
+						if (d1 >= 0) dem.push_back(std::make_pair(d1 / 3, d1 % 3));
+						if (d2 >= 0) dem.push_back(std::make_pair(d2 / 3, d2 % 3));
+						// pairs of demoted links with a smaller budget: quick d <= 1, thorough d <= 3
+						int b = d2 >= 0 ? (thorough ? 3 : 1) : bound;
+						ok = dfs(c, id + ",demote1=" + str(d1) + ",demote2=" + str(d2), b, dem, std::make_pair(-1, -1), {});
+					}
+				return ok;
+			}});
 		}
 	// 3. DeliverFrom programs
 	for (int v = 0; v < NFROM; v++)
